@@ -562,8 +562,13 @@ class Plugin:
             # all sources are requested all the way (including the final
             # Stopiteration), as required by lazy-mode processing requires
             for d in iters.keys():
-                if self._fetch_chunk(d, iters):
-                    raise RuntimeError(f"Plugin {d} terminated without fetching last {d}!")
+                buffer = self.input_buffer[d]
+                _end, _n = (None, 0) if buffer is None else (buffer.end, len(buffer))
+                while self._fetch_chunk(d, iters):
+                    # Trailing zero-duration (hence empty) chunks carry nothing new
+                    buffer = self.input_buffer[d]
+                    if buffer.end != _end or len(buffer) != _n:
+                        raise RuntimeError(f"Plugin {d} terminated without fetching last {d}!")
 
             # This can happen especially in time range selections
             if hasattr(self.save_when, "values"):
